@@ -119,13 +119,16 @@ def union_history(rnd, first_id, t, mode, defs, assigns=None, nsteps=4, compiled
     rid = first_id
     if rnd.random() < 0.8:
         data = bytes(rnd.choice([0, 1, 0x7F, 0x80, 0xFF, rnd.randrange(256)]) for _ in range(size + rnd.randrange(0, 3)))
-        st = io.BytesIO(data)
+        # the union is parsed at any stream position (it consumes exactly its size wherever it starts)
+        start = rnd.choice([0, 0, 1, 2, 3, 5, 8])
+        st = io.BytesIO(bytes(rnd.randrange(256) for _ in range(start)) + data)
+        st.seek(start)
         try:
             u = T.read(st)
         except Exception:  # noqa: BLE001 - contents some member cannot decode are outside the domain of C11
             return [], first_id
         ev = dict(base, id=rid, ev="Parse", input=list(data))
-        pos = st.tell()
+        pos = st.tell() - start
     else:
         u = T()
         ev = dict(base, id=rid, ev="Default")
